@@ -22,7 +22,9 @@ Sources == <<"$A", "(list $A $B)", "'($A)", "[$A {:k $A}]", "(str \"$A\" $A)", "
              "\"a\n$A\"", "(quote $1)", "{:k $A-B}", "¬$A¬", "($B $A)", "  $A", ";; comment\n$A", "#{$A}", "(fn [] $A)",
              \* multi-line raw strings of the source holding comment-looking and preamble-looking lines
              "(list $MODULE $A)",
-             "[$A ¬a\n; b $A\n;; $A 1\nc¬]", "(str ¬\n   ; y\nz¬ $A)", "¬x\n\n;; $B 2\n¬ $A">>
+             "[$A ¬a\n; b $A\n;; $A 1\nc¬]", "(str ¬\n   ; y\nz¬ $A)", "¬x\n\n;; $B 2\n¬ $A",
+             \* CR LF line ends: between forms, after comments, inside multi-line raw strings and strings
+             "(list $A\r\n $B) ; c\r\n", "[$A ¬a\r\nb \r\n\r\nc¬]", "; c\r\n(str $A \"x\r\ny\")\r\n", "¬\r\n¬ $A">>
 
 Values == <<"1", "nil", "-5", "\"s\"", "\"a\\\"b\"", "\"a\\\\b\"", "\"a;b\"", "\"(a)\"", "\"a\\nb\"", "\"{\\\"a\\\":1}\"",
             "\"{\\\"a\\\":\\n1}\"", "\"{\\\"a\\\":1}\\n\\n;; $B 1\\n\\n{\\\"b\\\":2}\"", "\"x\\n\\n;; $B 1\"", "sym", "$B", ":k",
@@ -30,7 +32,9 @@ Values == <<"1", "nil", "-5", "\"s\"", "\"a\\\"b\"", "\"a\\\\b\"", "\"a;b\"", "\
             "\"\"", "\" \"", "true", "#{\"a\"}", "\"{\\\"a\\\":1}\\n\"", "\"\\n\"",
             "\"a\tb\"", "\"a\rb\"", "\"é ʞ\"", "[\"x\ty\" {:k \"\r\"}]",
             \* hash-maps whose KEYS need the printer's escapes
-            "{\"a\\\"b\" 1}", "{\"x\\n;; $B 9 ;\" 1}", "{\"{\\\"k\\\":1}\" 2}", "[{\"a;b\" {\"c\\\\d\" 3}}]">>
+            "{\"a\\\"b\" 1}", "{\"x\\n;; $B 9 ;\" 1}", "{\"{\\\"k\\\":1}\" 2}", "[{\"a;b\" {\"c\\\\d\" 3}}]",
+            \* percent signs (format verbs to anything that prints with a format string)
+            "\"100%\"", "\"%d items %s\"", "\"10%%\"", "[\"%v\" {\"%k\" \"%!\"}]">>
 
 Names == <<"$A", "$B", "$A-B", "$1", "$A_B", "$MODULE">>
 
